@@ -81,6 +81,12 @@ func (a *API) SearchPromises(id string, state string, tags map[string]string, li
 			return nil, RequestValidationError(err)
 		}
 
+		// a validly signed cursor of another search (e.g. a schedule search) decodes
+		// into a request the kernel must never see: no states, no id
+		if cursor.Next == nil || cursor.Next.Id == "" || len(cursor.Next.States) == 0 || cursor.Next.Limit < 1 || cursor.Next.Limit > 100 {
+			return nil, RequestValidationError(errors.New("The field cursor is not a promise search cursor."))
+		}
+
 		return cursor.Next, nil
 	}
 
@@ -146,6 +152,10 @@ func (a *API) SearchSchedules(id string, tags map[string]string, limit int, curs
 		cursor, err := t_api.NewCursor[t_api.SearchSchedulesRequest](cursor)
 		if err != nil {
 			return nil, RequestValidationError(err)
+		}
+
+		if cursor.Next == nil || cursor.Next.Id == "" || cursor.Next.Limit < 1 || cursor.Next.Limit > 100 {
+			return nil, RequestValidationError(errors.New("The field cursor is not a schedule search cursor."))
 		}
 
 		return cursor.Next, nil
